@@ -147,7 +147,12 @@ func solveAll(w *World, cfg *RunCfg, results []*FuncResult) {
 		go func(j job) {
 			defer wg.Done()
 			defer func() { <-sem }()
-			r := Solve(cfg.Solver, j.q.SMT, true)
+			var r solverResult
+			if j.o.ExpectFail {
+				r = SolveCanary(cfg.Solver, j.q.SMT)
+			} else {
+				r = Solve(cfg.Solver, j.q.SMT, true)
+			}
 			j.q.Status = r.status
 			j.q.Solver = r.solver
 			j.q.Ms = r.ms
